@@ -182,6 +182,32 @@ def make_target(target, timeout):
     return sh(["make", "-j%d" % NCPU, "COQC=timeout %d coqc" % COQC_TIMEOUT, target], cwd=COQ, timeout=timeout)
 
 
+def vo_key(props_file):
+    st = os.stat(os.path.join(COQ, props_file[:-2] + ".vo"))
+    return [st.st_mtime_ns, st.st_size]
+
+
+def solo_compile(props_file, timeout):
+    """The output of compiling the property file ALONE (its Print Assumptions lines), for the .vo that is on disk
+    now.  The compile is repeated only when the .vo differs from the one the cached output belongs to (any change
+    of a dependency makes `make` rebuild the .vo, which changes its key)."""
+    cache = os.path.join(ROOT, ".work", "assumptions", props_file.replace("/", "_") + ".json")
+    try:
+        c = json.load(open(cache))
+        if c.get("key") == vo_key(props_file):
+            return 0, c["out"]
+    except (OSError, ValueError, KeyError):
+        pass
+    for ext in (".vo", ".vos", ".vok", ".glob"):
+        try: os.remove(os.path.join(COQ, props_file[:-2] + ext))
+        except OSError: pass
+    rc, out = make_target(props_file[:-2] + ".vo", timeout)
+    if rc == 0:
+        os.makedirs(os.path.dirname(cache), exist_ok=True)
+        write_json(cache, {"key": vo_key(props_file), "out": out})
+    return rc, out
+
+
 def parse_assumptions(out):
     """returns list of blocks: 'closed' or list of axiom names"""
     blocks = []
@@ -307,11 +333,7 @@ def main(argv):
         proof_timeout = cfg.get("proof_timeout", 1500)
         rc_m, out_m = make_target(target, proof_timeout)
         if rc_m == 0:
-            # recompile the property file alone to capture Print Assumptions
-            for ext in (".vo", ".vos", ".vok", ".glob"):
-                try: os.remove(os.path.join(COQ, props_file[:-2] + ext))
-                except OSError: pass
-            rc_m, out_m = make_target(target, proof_timeout)
+            rc_m, out_m = solo_compile(props_file, proof_timeout)
         run_model_target = cfg.get("run_target")
         rc_r, out_r = (0, "")
         if run_model_target:
